@@ -17,7 +17,7 @@ from .common import zR, zT, zmat_mul, zmat_vec, zabs
 
 PROPERTY = "C09"
 FUNCTIONS = ["lie_algebra.hat", "vee", "se3", "sim3", "so3_from_se3", "se3_inverse", "sim3_scale", "sim3_inverse",
-             "is_so3", "is_se3", "is_sim3", "relative_so3", "relative_se3", "so3_log", "so3_log_angle"]
+             "is_so3", "is_se3", "is_sim3", "relative_so3", "relative_se3", "so3_log (both return forms)", "so3_log_angle"]
 BOUNDS = {"quick": "single matrices / pairs / triples of symbolic group elements (no length bound involved)",
           "thorough": "same obligations, longer solver time-outs, near-miss families with symbolic distance"}
 STUBS = ["scipy Rotation.from_matrix(M).as_rotvec(): |v| = acos*((tr M - 1)/2), acos* uninterpreted + instantiated contract",
